@@ -17,7 +17,8 @@ CHECKS = {
                 ' Round 6: Property/Section setters hand the given value to the backend verbatim or through the tabled normaliser (R-SETVERB).'
                 ' Round 7: R-GETVERB, R-STOREVERB; no rejection after a mutation in Property/Section entry points (R-MBT slice).'
                 ' Round 8: R-STRIO verbatim clause, R-STRBUF.'
-                ' Round 9: a value setter never removes its key; R-KEY follows file-local helpers one level.',
+                ' Round 9: a value setter never removes its key; R-KEY follows file-local helpers one level.'
+                ' Round 10: R-KEY write-total.',
     },
     'C15': {
         'technique': 'static analysis: cell codec table agreement (Janus copyValue/copyData vs. to_data_type<T>), def-use rule for compound '
@@ -53,7 +54,8 @@ CHECKS = {
                 ' Round 6: every normally returning path of DataArrayHDF5::write/read performs the data set transfer (R-IOPATH).'
                 ' Round 7: convertData converts on every returning path; appendData compares shapes, not element counts (R-APPEND).'
                 ' Round 8: setExtent hands the shape to H5Dset_extent on every path (R-SETEXTENT); calibrated reads refuse String (guards D29).'
-                ' Round 9: replacing setters size their data set to the new length (R-REPLACE-EXTENT).',
+                ' Round 9: replacing setters size their data set to the new length (R-REPLACE-EXTENT).'
+                ' Round 10: every returning path of a backend value setter stores or removes (R-KEY write-total).',
     },
     'C02': {
         'technique': 'static analysis: storage-key agreement rule per backend field (setter / clearing overload / getter / creating constructor / '
@@ -70,7 +72,8 @@ CHECKS = {
                 ' Round 6: the time stamp text codec is time-zone/locale independent and parser and formatter agree (R-TIMECODEC).'
                 ' Round 7: front-end setters/getters and backend stores are verbatim (R-SETVERB, R-GETVERB, R-STOREVERB); all constructors of a backend class bind a container member to the same group name (R-CTORPAIR); H5Object releases its id unconditionally (R-HIDREL).'
                 " Round 8: no run-time written function-static state (R-NOSTATIC); the string transfer functions do not touch the caller's strings (R-STRBUF, R-STRIO verbatim)."
-                ' Round 9: backend getters return what they read (R-GETRAW).',
+                ' Round 9: backend getters return what they read (R-GETRAW).'
+                ' Round 10: R-KEY write-total; isOpen() equals the validity of the file id (R-CLOSE guard); the non-releasing H5Object move assignment has no caller (R-HIDREL).',
     },
     'C03': {
         'technique': 'static analysis: dominance-based validate-before-create rule over clang AST/CFG facts (custom checker)',
@@ -81,7 +84,8 @@ CHECKS = {
                 ' Round 6: attribute searches accept a child only under exact equality (R-ATTRSEARCH); Identity carries the given name/id verbatim (R-IDENT).'
                 ' Round 7: get-name buffers have (queried length + 1) elements (R-NAMEBUF); text lookups go through the name-first helpers (R-LOOKUP-VIA).'
                 ' Round 8: R-STRBUF; whole-string, case-sensitive comparisons only (R-EXACTCMP).'
-                ' Round 9: deletion cascade and all-links rules (R-DEL) also run here.',
+                ' Round 9: deletion cascade and all-links rules (R-DEL) also run here.'
+                ' Round 10: H5Group opens a child by name only under a true H5Lexists test (R-LINKFIRST).',
     },
     'C10': {
         'level': 'proof',
@@ -114,7 +118,8 @@ CHECKS = {
                 ' Round 6: the front-end existence test follows symbolic links like the open call does (status vs symlink_status modelled).'
                 ' Round 7: open flags and compression reach the backend for every mode (R-HDR-CTOR forwarded clause); R-HIDREL.'
                 ' Round 8: close() sweeps the open objects on every returning path (R-CLOSE sweep clause).'
-                ' Round 9: no backend catch handler swallows an exception (R-NOSWALLOW).',
+                ' Round 9: no backend catch handler swallows an exception (R-NOSWALLOW).'
+                ' Round 10: R-CLOSE guard-is-file-id, R-HIDREL no-caller.',
     },
     'C11': {
         'technique': 'static analysis: must-pass-through (post-dominance) and who-may-call rules on FileHDF5::flush/close and '
@@ -128,7 +133,8 @@ CHECKS = {
                 ' Round 6: flush() reports success only on paths that ran H5Fflush without error (path enumeration; ReadOnly shortcut accepted).'
                 ' Round 7: H5Object releases its id unconditionally (R-HIDREL).'
                 ' Round 8: R-CLOSE sweep clause; no wrapper of an id kind that close() does not sweep can be move-assigned without releasing (R-HIDREL).'
-                ' Round 9: no temporary wrapper adopts an id the object itself holds (R-HIDOWN adopt clause).',
+                ' Round 9: no temporary wrapper adopts an id the object itself holds (R-HIDOWN adopt clause).'
+                ' Round 10: isOpen() (the guard of close()) equals isValid() of the file id on all abstract paths; R-HIDREL no-caller.',
     },
     'C12': {
         'technique': 'static analysis: entropy-source classification of the generator chain in util::createId (def-use over static '
@@ -155,6 +161,7 @@ CHECKS = {
                 ' Added: key/getter/codec rules for dimension descriptors, R-TICKS (alias ticks replace the array), R-MBT slice for the append/create entry points, R-COLIDX, R-MEMTYPE.'
                 ' Round 7: dimension setters/getters and backend stores are verbatim (R-SETVERB, R-GETVERB, R-STOREVERB).'
                 ' Round 9: backend functions identify a handle by id, not by name (R-BYHANDLE-BACK); R-REPLACE-EXTENT.'
+                ' Round 10: R-KEY write-total (no value is \'not worth storing\').'
                 ' R-GETRAW.',
     },
     'C18': {
@@ -240,7 +247,8 @@ CHECKS = {
                 ' Round 6: positionToIndex overloads delegate with the position unchanged (R-POSPASS).'
                 ' Round 7: R-UNIT-SCALEPOS with loop-carried state; per-dimension containers only grow at the end (R-ALIGNED).'
                 ' Round 8: R-NOSTATIC.'
-                ' Round 9: no return ahead of the dispatch in the generic positionToIndex overloads (R-DISPATCH-TOTAL).',
+                ' Round 9: no return ahead of the dispatch in the generic positionToIndex overloads (R-DISPATCH-TOTAL).'
+                ' Round 10: sibling arms set the reference out-parameters together (R-OUTPAIR).',
     },
     'C06': {
         'technique': 'static analysis: abstract interpretation of getOffsetAndCount(MultiTag)/taggedData/featureData (all abstract '
@@ -252,7 +260,8 @@ CHECKS = {
                 ' Added: rows are read at indices[idx] before each use, block reads only under a whole-list test; index bound for indexed/untagged features; R-FORWARD, R-PARALLEL, R-MEMO, R-INDATA, R-PAIR-VEC (no state carried between list elements), R-SWAP, R-STALE.'
                 ' Round 7: R-UNIT-SCALEPOS with loop-carried state; R-ALIGNED.'
                 ' Round 8: R-NOSTATIC.'
-                ' Round 9: R-DISPATCH-TOTAL.',
+                ' Round 9: R-DISPATCH-TOTAL.'
+                ' Round 10: R-OUTPAIR.',
     },
     'C17': {
         'technique': 'static analysis: abstract interpretation of dataSlice, DataView (ctor, transform_coordinates, ioRead/ioWrite) and '
@@ -265,7 +274,8 @@ CHECKS = {
                 ' Added: NDSize comparisons are treated component-wise by the interpreter; guarded-subtraction idiom; R-INDATA; R-MEMO; R-UNIT-SCALEPOS; R-FILL understands padding through maximumExtents; R-SWAP.'
                 ' Round 7: start > end is tested on the padded vectors that are converted (R-SLICE, syntax-level facts); R-ALIGNED.'
                 ' Round 8: R-SETEXTENT.'
-                ' Round 9: R-MATCH (exact-hit polynomial of the index helpers) also runs here.',
+                ' Round 9: R-MATCH (exact-hit polynomial of the index helpers) also runs here.'
+                ' Round 10: R-OUTPAIR.',
     },
     'C08': {
         'technique': 'static analysis: interprocedural clean/dirty typestate over the closed-world call graph and per-function CFGs '
@@ -279,7 +289,8 @@ CHECKS = {
                 ' Added: conditional discharges require the validating loop to test under the key the later call uses; name-first lookups (R-NAMEFIRST); optGroup negative-memory clause (R-NOCACHE).'
                 ' Round 7: R-APPEND shape guard; element type compared before a resize (R-TYPEGATE), empty / Nothing columns and ranks above H5S_MAX_RANK refused before anything is created (R-DF-FRONT, R-RANKGATE) - these three guard the defects D26-D28, rejections that come from libhdf5 and that R-MBT does not see.'
                 ' Round 8: R-SETEXTENT.'
-                ' Round 9: a repeated array in references(vector) is refused before the removal (R-REPLACE-DUP, guards D32).',
+                ' Round 9: a repeated array in references(vector) is refused before the removal (R-REPLACE-DUP, guards D32).'
+                ' Round 10: the convertibility pre-check accepts only element types the encoder can store, exhaustively over DataType (R-CLASSIFY).',
     },
     'C16': {
         'technique': 'static analysis: repository-specific lint set over the resolved program - guard-fact (dominance) rules for '
